@@ -15,6 +15,7 @@ import PasskeyVerif.Lemmas.Base64
 import PasskeyVerif.Lemmas.Serde
 import PasskeyVerif.Lemmas.SerdeSer
 import PasskeyVerif.Model.WebauthnJson
+import PasskeyVerif.Lemmas.ClientDataJson
 import PasskeyVerif.Generated.WebauthnSchema
 namespace PasskeyVerif.C14
 open PasskeyVerif PasskeyVerif.Json PasskeyVerif.WJson
@@ -345,5 +346,74 @@ def exampleCredential : Val :=
 example : wt emittedSchema (fun _ => true) 6 (.struct "PublicKeyCredential<AuthenticatorAttestationResponse>") exampleCredential = true
     ∧ (serTy emittedSchema false 6 (.struct "PublicKeyCredential<AuthenticatorAttestationResponse>") exampleCredential).isSome = true := by
   decide +kernel
+
+/-! ### client data at value level (model: Model/ClientDataJson.lean — the derived parser and serialiser of
+`CollectedClientData` with its two flattened members; tied to the code by the `js.cdorder` stream, which compares
+names *and* values of the real parse → re-serialise cycle with `reser`, on accepted and on refused documents) -/
+
+section ClientData
+open PasskeyVerif.ClientDataJson
+
+/-- **type, challenge, origin, crossOrigin first, in that order, once**: whatever the order of the members of an
+accepted document, the re-serialised client data starts with exactly these four, carrying the document's type,
+challenge and origin texts unchanged (crossOrigin `true` exactly when the document said `true`), and none of the
+four names occurs again later. -/
+theorem C14_client_data_fixed_members_first (ms out : Members) (h : reser ms = some out) :
+    ∃ ty ch orig b, out.take 4 = [("type", .str ty), ("challenge", .str ch), ("origin", .str orig), ("crossOrigin", .bool b)]
+      ∧ lookup ms "type" = some (.str ty) ∧ lookup ms "challenge" = some (.str ch) ∧ lookup ms "origin" = some (.str orig)
+      ∧ (b = true ↔ lookup ms "crossOrigin" = some (.bool true))
+      ∧ (∀ q ∈ out.drop 4, isFixed q.1 = false) := by
+  obtain ⟨p, hp, rfl⟩ := reser_shape ms out h
+  obtain ⟨_, h1, _, h2, h3, h4, h5⟩ := parse_some ms p hp
+  refine ⟨p.ty, p.challenge, p.origin, p.crossOrigin == some true, by simp [serialiseClientData], h1, h2, h3, ?_, ?_⟩
+  · rw [← h4]; simp
+  · intro q hq
+    have : q ∈ p.unknown := by simpa [serialiseClientData] using hq
+    rw [h5] at this
+    exact collectUnknown_not_fixed ms q this
+
+/-- **... followed by the extra and unknown members in their original order** — with their values: for a document
+whose member names are distinct, what follows the four is the document's other members, untouched. -/
+theorem C14_client_data_other_members_kept (ms out : Members) (h : reser ms = some out) (hn : (ms.map (·.1)).Nodup) :
+    out.drop 4 = ms.filter (fun p => !isFixed p.1) := by
+  obtain ⟨p, hp, rfl⟩ := reser_shape ms out h
+  obtain ⟨_, _, _, _, _, _, h5⟩ := parse_some ms p hp
+  simp [serialiseClientData, h5, collectUnknown_nodup ms hn]
+
+/-- the name-only model used by `C14_client_data_order` is the projection of the value-level one -/
+theorem C14_client_data_names (ms out : Members) (h : reser ms = some out) (hn : (ms.map (·.1)).Nodup) :
+    out.map (·.1) = clientDataOrder (ms.map (·.1)) := by
+  have h2 := C14_client_data_other_members_kept ms out h hn
+  obtain ⟨p, hp, rfl⟩ := reser_shape ms out h
+  have h3 : p.unknown = ms.filter (fun p => !isFixed p.1) := by simpa [serialiseClientData] using h2
+  simp [serialiseClientData, clientDataOrder, h3, isFixed, fixedKeys]
+  rw [List.filter_map]; rfl
+
+/-- **re-emitted client data is stable**: whatever was accepted (repeated unknown names included), the re-serialised
+members are accepted again and written again as themselves — a signature over the first re-serialisation stays valid
+over every later one. -/
+theorem C14_client_data_reemitted_is_stable (ms out : Members) (h : reser ms = some out) :
+    reser out = some out := by
+  obtain ⟨p, hp, rfl⟩ := reser_shape ms out h
+  obtain ⟨_, _, hty, _, _, _, h5⟩ := parse_some ms p hp
+  apply reser_serialise p hty
+  · intro q hq; rw [h5] at hq; exact collectUnknown_not_fixed ms q hq
+  · rw [h5]; exact collectUnknown_keys_nodup ms
+
+/-- a repeated named member, a missing or ill-typed required member, an unknown type string and a non-boolean
+crossOrigin are refused (the error branch, stated outright on concrete documents), and a concrete accepted document
+with a repeated unknown name (non-vacuity; first position, last value) -/
+example :
+    reser [("type", .str "webauthn.get"), ("type", .str "webauthn.get"), ("challenge", .str "AA"), ("origin", .str "o")] = none
+    ∧ reser [("type", .str "webauthn.get"), ("origin", .str "o")] = none
+    ∧ reser [("type", .str "webauthn.get"), ("challenge", .num "1"), ("origin", .str "o")] = none
+    ∧ reser [("type", .str "webauthn.other"), ("challenge", .str "AA"), ("origin", .str "o")] = none
+    ∧ reser [("type", .str "webauthn.get"), ("challenge", .str "AA"), ("origin", .str "o"), ("crossOrigin", .str "true")] = none
+    ∧ (reser [("z", .num "1"), ("origin", .str "o"), ("a", .null), ("challenge", .str "AA"), ("z", .num "2"), ("type", .str "payment.get")]).map
+        (fun out => membersBeq out [("type", .str "payment.get"), ("challenge", .str "AA"), ("origin", .str "o"), ("crossOrigin", .bool false),
+          ("z", .num "2"), ("a", .null)]) = some true := by
+  decide +kernel
+
+end ClientData
 
 end PasskeyVerif.C14
